@@ -1,6 +1,7 @@
 package props
 
 import (
+	"fmt"
 	"testing"
 
 	"pgregory.net/rapid"
@@ -31,6 +32,7 @@ func TestC01(t *testing.T) {
 		w.pool[s.Table] = g.keys
 		g.failClasses = []string{"index-key-type-put", "index-key-type-update", "wrong-typed-key", "missing-key-attr", "oversized-index-key", "malformed-update", "invalid-return-values"}
 		var lastRefused *model.Op
+		floodDone := false
 		var flagOverwrite, flagReput, flagUpsert, flagDelAbsent bool
 		touched := map[string]bool{}
 		deleted := map[string]bool{}
@@ -99,6 +101,33 @@ func TestC01(t *testing.T) {
 						flagUpsert = true
 					}
 				}
+			},
+			"manyUpdateTexts": func(rt *rapid.T) {
+				// more distinct update texts on one table than any bounded memory of
+				// parsed expressions holds, then the earliest texts once more with
+				// another value: each must still do what it says
+				if bigNums || floodDone || rapid.IntRange(0, 39).Draw(rt, "reallyManyTexts") != 21 {
+					return
+				}
+				floodDone = true
+				key := g.key(rt)
+				n := rapid.SampledFrom([]int{65, 70, 130}).Draw(rt, "updateTexts")
+				for round := 0; round < 2; round++ {
+					last := n
+					if round == 1 {
+						last = 3
+					}
+					for i := 0; i < last; i++ {
+						op := model.Op{Kind: "Update", Table: s.Table, Key: key, Update: fmt.Sprintf("SET zf%d = :v", i),
+							Values: map[string]model.AV{":v": model.Str(fmt.Sprintf("r%d-%d", round, i))}}
+						res, status, f := w.do(op)
+						fail(f)
+						if status == stepDone && res.Err == "" {
+							touched[model.CanonItem(key)] = true
+						}
+					}
+				}
+				st.Class("history-with-many-update-texts")
 			},
 			"delete": func(rt *rapid.T) {
 				key := g.key(rt)
